@@ -34,7 +34,8 @@ func (c20) Meta() fw.Meta {
 			"(b) the real generate binary inside a stable wall-clock second, launched across a second boundary, or slowed down by strace-injected delays on its page reads (runs that span several seconds must be consistent with ONE generation instant), after WAITING for the late phase when the layout has N_fine == ratio (steps 1-5 s), then a second invocation on the same path. " +
 			"oracle (library read at that instant + the harness' byte parser): header == request; without fill every physical slot is all-zero; with fill every slot of every archive's window (now-ret, now] is non-NaN with 0 <= v <= max*step_i/step_0, and every coarser slot whose ratio finer intervals all lie in the finer archive's window equals their sum (exact integers); existing destination => exit != 0 and bytes unchanged. " +
 			"non-trivial = filled file with >= 2 archives in which at least one fully covered and one partially covered coarser slot were checked; distinct by (layout, instant, max)." +
-			" Also: generate with stdout (text output) on /dev/full - exit 0 only with a complete file; odd cases create from a list used before at another length.",
+			" Also: generate with stdout (text output) on /dev/full - exit 0 only with a complete file; odd cases create from a list used before at another length." +
+			" Existing destinations also include all-zero placeholders and an empty file; every 32nd case starts a second generate for a destination the first is still writing.",
 		Assumptions: []string{
 			"generate's random values are non-negative integers, so sums are exact",
 			"CLI instants are wall-clock (phase steered by waiting); all other phases come from the function-level driver",
